@@ -194,7 +194,8 @@ def gr1(ctx, R):
             else:
                 R.ok(key, rf.where(st), "group entries are created once (guarded, or built from maps with unique keys after the walk)")
     if n_stores == 0:
-        raise AnchorMissing("tdms.TdmsFile._read_file: stores into self._groups")
+        R.unrecognised("tdms.TdmsFile._read_file::group entries", top.where(), "no store into self._groups inside a loop reached from _read_file: how the groups are "
+                       "registered was not recognised")
 
 
 @rule("UD1", "string values are cut at byte offsets before they are decoded", floor=1)
@@ -370,7 +371,11 @@ def mp3(ctx, R):
     cm = chunk_cache_model(ctx)
     CACHE_V = cm["V"]
 
+    extra_refs = set()       # per decider function: the term .scale(...) is called on there (e.g. a parameter of a module helper)
+
     def is_scaling_ref(x):
+        if x in extra_refs:
+            return True
         return x == ("self", "_scaling") or (isinstance(x, tuple) and len(x) == 3 and x[0] == "attr" and x[2] == "_scaling")
 
     def strip_index(v):
@@ -506,17 +511,30 @@ def mp3(ctx, R):
     cd = prog.func("tdms.ChannelDataChunk._data")
     check_scaled("tdms.ChannelDataChunk._data", cd, Sym(prog, cd, cd.cls).function_value(), cd.where())
     # the decision itself: (scaling defined?, scaler data present?) -> scale / error / raw
-    deciders = [f for f in prog.functions.values() if f.module.name == "tdms" and any(
-        isinstance(c, ast.Call) and isinstance(c.func, ast.Attribute) and c.func.attr == "scale" for c in walk_body(f.node))]
+    # (found by what they do: functions of nptdms.tdms, or module-level functions of nptdms.scaling, that call .scale(...) and look at scaler_data)
+    has_scale = lambda f: any(isinstance(c, ast.Call) and isinstance(c.func, ast.Attribute) and c.func.attr == "scale" for c in walk_body(f.node))
+    deciders = [f for f in prog.functions.values() if has_scale(f) and (
+        f.module.name == "tdms" or (f.module.name == "scaling" and f.cls is None and any(
+            isinstance(x, ast.Attribute) and x.attr == "scaler_data" for x in ast.walk(f.node))))]
     if not deciders:
-        raise AnchorMissing("tdms: function applying scaling.scale")
+        raise AnchorMissing("function applying scaling.scale to a chunk (looked in nptdms.tdms and nptdms.scaling)")
     for f in sorted(deciders, key=lambda f: f.qual):
-        paths = Sym(prog, f, f.cls).function_paths()
+        sy_f = Sym(prog, f, f.cls)
+        paths = sy_f.function_paths()
+        # the scaling object in this function: what .scale(...) is called on
+        recvs = set()
+        for c in walk_body(f.node):
+            if isinstance(c, ast.Call) and isinstance(c.func, ast.Attribute) and c.func.attr == "scale":
+                e_, _g_ = sy_f.env_at(c)
+                recvs.add(sy_f.expr(c.func.value, e_))
+        extra_refs.clear()
+        extra_refs.update(r_ for r_ in recvs if r_[0] == "param")
+        is_scaling_ref_f = is_scaling_ref
         table = {}
         for a in (True, False):        # scaling is None?
             for b in (True, False):    # scaler data present?
                 def orc(c, a=a, b=b):
-                    if isinstance(c, tuple) and len(c) == 4 and c[0] == "cmp" and c[1] == "is" and is_scaling_ref(c[2]) and c[3] == ("const", None):
+                    if isinstance(c, tuple) and len(c) == 4 and c[0] == "cmp" and c[1] == "is" and is_scaling_ref_f(c[2]) and c[3] == ("const", None):
                         return a
                     if isinstance(c, tuple) and len(c) == 3 and c[0] == "attr" and c[2] == "scaler_data":
                         return b
@@ -617,7 +635,7 @@ def ts1(ctx, R):
     R.note("EagerNoType state derivation: get_data_receiver first statement `%s`" % (unparse(first).split("\n")[0] if first is not None else None))
 
 
-@rule("OFS1", "chunk offsets are snapshots: yielded chunk objects do not capture the running-count accumulator", floor=3)
+@rule("OFS1", "chunk offsets are snapshots: yielded chunk objects do not capture the running-count accumulator", floor=1)
 def ofs1(ctx, R):
     prog = ctx.prog
     dc = prog.func("tdms.TdmsFile.data_chunks")
